@@ -1744,6 +1744,7 @@ def check_tokens(ctx, tu, inst, loc, key, events, outcome_of, owned0, require_em
             if task not in held:
                 bad.append(('publish-before-increment', 'a partition is published to the pipe before m_RunningCount of its task was '
                             'incremented: a worker can run and decrement it first, and the count reaches 0 (join returns) while work remains'))
+                return bad      # what follows on this path is a consequence of the missing increment
             elif ok:
                 held.remove(task)
         elif kind == 'exec':
@@ -1810,13 +1811,27 @@ def check_split_and_add(ctx, tu, split_fn):
     except ValueError as e:
         ctx.undecided(R, inst, 'loop body is not loop-free (%s)' % e, loc)
         return
+    # Operations outside the loop.  Before the loop (in a block from which the loop head is reachable) they change what an
+    # iteration starts with: not a recognised form.  After the loop they cannot account for a publication made inside it
+    # (the partition is already visible to other threads): the per-iteration analysis below stays valid and decides.
+    pr = g.preds()
+    reach_head = {H.id}
+    work = [H.id]
+    while work:
+        for p_ in pr[work.pop()]:
+            if p_ not in reach_head:
+                reach_head.add(p_)
+                work.append(p_)
+    late_ops = []
     for bid in set(g.blocks) - L:
         for e in g.blocks[bid].el:
             n = tu.node(e[1]) if e[0] == 'S' else None
             if n is not None and n.get('kind') in CALLS and (running_count_event(tu, n) or
                                                              tu.sd(n).get('q', '').endswith(('WriterTryWriteFront', 'ExecuteRange'))):
-                ctx.undecided(R, inst, 'running-count / pipe operation outside the splitting loop at %s' % tu.loc(n), loc)
-                return
+                if bid in reach_head:
+                    ctx.undecided(R, inst, 'running-count / pipe operation before the splitting loop at %s' % tu.loc(n), loc)
+                    return
+                late_ops.append(n)
     s0 = Lin.atom(('init', sub + ('partition', 'start')))
     e0 = Lin.atom(('init', sub + ('partition', 'end')))
     p0 = Lin.atom(('init', sub + ('pTask',)))
@@ -1871,6 +1886,13 @@ def check_split_and_add(ctx, tu, split_fn):
             else:
                 und.append('cannot show that the consumed length `%r` stays within the remaining range `%r` (path conditions: %s)'
                            % (ln, e0 - s0, [repr(c[2]) + c[1] + '0' for c in st.conds]))
+    if late_ops:
+        late = ', '.join('`%s` at %s' % (tu.show(n), tu.loc(n)) for n in late_ops[:3])
+        if any(k == 'publish-before-increment' for k, t in bad):
+            bad = [(k, t + ' (the count is only adjusted after the loop: %s - too late, the partitions are already visible to other '
+                    'threads)' % late if k == 'publish-before-increment' else t) for k, t in bad]
+        elif not bad:
+            und.append('running-count / pipe operation after the splitting loop (%s) although every iteration is balanced' % late)
     for u in sorted(set(und)):
         ctx.undecided(R, inst, u, loc)
     for k, t in sorted(set(bad)):
